@@ -67,6 +67,7 @@ structure DSt where
   refs : List Nat := []
   phs : List Nat := []
   led : Nat := 0
+  lite : Bool := false     -- legs in other packages observe without job shelves / ledger
 
 structure CallD where
   tx : Res Tx
@@ -128,6 +129,8 @@ def observe (d : DSt) : DSt × String :=
   let newEv := s.ledger.drop d.led
   let names := sortStrs ((newEv.map (·.sub)).eraseDups)
   let ev := names.flatMap fun n => (newEv.filter (·.sub == n)).map fun e => s!"{e.sub}:{match e.typ with | .tx => "t" | .payload => "p"}:{short e.ref}"
+  if d.lite then ({ d with led := s.ledger.length },
+    s!"P={p} | LC={lc} | PL={pl} | n={s.count} lch={s.lcHigh} lca={s.lcAtomic} head={head} xor={short s.xor}") else
   ({ d with led := s.ledger.length },
    s!"P={p} | LC={lc} | PL={pl} | n={s.count} lch={s.lcHigh} lca={s.lcAtomic} head={head} xor={short s.xor} | J={String.intercalate "," jobs} | E={String.intercalate "," ev}")
 
@@ -141,7 +144,7 @@ def step (d : DSt) (j : Json) : DSt × List String :=
     | .err e => (d, ["err:" ++ e])
     | .panic p => (d, ["panic:" ++ p])
   | "new" =>
-    let d : DSt := { subs := (jArr j "subs").map parseSub }
+    let d : DSt := { subs := (jArr j "subs").map parseSub, lite := jBool j "lite" }
     let (d, o) := observe d
     (d, ["new " ++ o])
   | "doc" =>
@@ -159,6 +162,44 @@ def step (d : DSt) (j : Json) : DSt × List String :=
       (d, [s!"r={resCls r.2} | {o}"])
     | .err e => let (d, o) := observe d; (d, [s!"r=err:{e} | {o}"])
     | .panic p => let (d, o) := observe d; (d, [s!"r=panic:{p} | {o}"])
+  | "list" =>
+    let cs := jArr j "calls"
+    let d := cs.foldl absorb d
+    let cds := cs.map callOf
+    match cds.findSome? (fun c => match c.tx with | .ok _ => none | .err e => some ("err:" ++ e) | .panic p => some ("panic:" ++ p)) with
+    | some e => let (d, o) := observe d; (d, [s!"r={e} | {o}"])
+    | none =>
+      let items : List Item := cds.filterMap fun c => match c.tx with | .ok t => some { tx := t, payload := c.payload } | _ => none
+      let r := handleList (envOf d cds) d.subs d.st items
+      let (d, o) := observe { d with st := r.1 }
+      (d, [s!"r={r.2} | {o}"])
+  | "payload" =>
+    let pid := jNat j "pid"
+    let d := { d with shas := (pid, hexNat (jStr j "sha")) :: d.shas,
+                      phs := (jStrs j "phs").foldl (fun l p => addUnique l (hexNat p)) d.phs }
+    let r := latePayload (envOf d []) d.subs d.st (hexNat (jStr j "ref")) pid
+    let (d, o) := observe { d with st := r.1 }
+    (d, [s!"r={r.2} | {o}"])
+  | "create" =>
+    let additional := (jStrs j "additional").map hexNat
+    if jStr j "createErr" != "" || !jHas j "call" then
+      -- the implementation refused to create: the model must refuse as well
+      let expect := if !additionalOK d.st additional then "err:create:additional-prev"
+                    else match createPrevsClock d.st additional with | .ok _ => "ok-expected" | .err e => "err:create:" ++ e | .panic p => "panic:" ++ p
+      let (d, o) := observe d
+      (d, [s!"r={expect} | {o}"])
+    else
+    let c := jObj j "call"
+    let d := absorb d c
+    let cd := callOf c
+    match cd.tx, (if additionalOK d.st additional then createPrevsClock d.st additional else .err "additional-prev") with
+    | .ok t, .ok (prevs, clock) =>
+      let m := if t.prevs == prevs && t.clock == clock then "match" else s!"MISMATCH(model prevs={prevs.map short} clock={clock})"
+      let r := add (envOf d [cd]) d.subs d.st t cd.payload
+      let (d, o) := observe { d with st := r.1 }
+      (d, [s!"r={resCls r.2} created={m} | {o}"])
+    | .ok _, .err e => let (d, o) := observe d; (d, [s!"r=err:create:{e} | {o}"])
+    | _, _ => let (d, o) := observe d; (d, [s!"r=err:create:unparseable | {o}"])
   | "reopen" =>
     let (d, o) := observe d
     (d, ["reopen " ++ o])
